@@ -353,12 +353,14 @@ func vTemplate(t int) (*vNode, vDefs) {
 		return &vNode{kind: vkArr, items: ref("X")}, vDefs{"X": obj(p("q", vLeaf(vkInt)))}
 	case 8: // direct self reference through a property
 		return ref("X"), vDefs{"X": obj(p("p", ref("X")), p("q", vLeaf(vkStr)))}
-	default: // mutual recursion X <-> Y
+	case 9: // mutual recursion X <-> Y
 		return ref("X"), vDefs{"X": obj(p("p", ref("Y"))), "Y": obj(p("p", ref("X")), p("q", vLeaf(vkInt)))}
+	default: // inline object next to a definition nothing refers to (yet)
+		return obj(p("p", vLeaf(vkInt))), vDefs{"X": obj(p("q", vLeaf(vkStr)))}
 	}
 }
 
-const vNumTemplates = 10
+const vNumTemplates = 11
 
 // first object node reachable from the root (through refs / array items), in the given defs
 func vFirstObj(n *vNode, defs vDefs, fuel int) *vNode {
@@ -473,11 +475,20 @@ func vApplyEdit(e int, root *vNode, defs vDefs) bool {
 		}
 		*root = *vCopyNode(t)
 		return true
+	case 10: // the inline root object becomes a composition over definition X, and X gains a property
+		x, ok := defs["X"]
+		if !ok || root.kind != vkObj || x.kind != vkObj {
+			return false
+		}
+		own := root.props
+		*root = vNode{kind: vkAllOf, ref: "X", props: own}
+		x.props = append(x.props, vProp{name: "r", node: vLeaf(vkInt)})
+		return true
 	}
 	return false
 }
 
-const vNumEdits = 10
+const vNumEdits = 11
 
 func vBodyParam(s *spec.Schema) spec.Parameter {
 	p := spec.Parameter{}
